@@ -80,8 +80,9 @@ Definition spec_check (c : case) : option bool :=
             groups_eqb (map (map unbs) (c_groups c)) (map (fun r => [fst r]) out))
   | OpCompress =>
       if rectangularb rs && Nat.ltb 0 (length rs) && forallb (fun r => forallb is_ascii (snd r)) rs then
-        let cin := map (column rs) (seq 0 (width rs)) in
-        let cout := map (column out) (seq 0 (width out)) in
+        (* = map (column rs) (seq 0 (width rs)), computed in linear time (DedupProofs.columns_spec) *)
+        let cin := columns rs in
+        let cout := columns out in
         let w := c_weights c in
         Some (negb (c_err c) &&
               list_eqb bytes_eqb (names out) (names rs) && rectangularb out &&
